@@ -10,7 +10,7 @@
 From Coq Require Import List NArith ZArith Lia Bool Arith ZifyBool ZifyN.
 Ltac Zify.zify_post_hook ::= Z.div_mod_to_equations.
 Import ListNotations.
-From Rustun Require Import Base.GRes Base.Tlv Generated.Constants Generated.Code Codec.InputText Codec.Wire Proofs.CodeAgreeCodec.
+From Rustun Require Import Base.GRes Base.Tlv Generated.Constants Generated.Code Codec.InputText Codec.Wire Proofs.CodeAgreePad.
 Open Scope N_scope.
 
 (* ---- lists, N-indexed *)
@@ -65,7 +65,14 @@ Proof. vm_compute. reflexivity. Qed.
 (* ---- 1. check_buffer_boundaries *)
 Lemma gen_check_buffer_boundaries_agrees : forall b n,
   gen_check_buffer_boundaries b n = if n <=? len b then Some tt else None.
-Proof. reflexivity. Qed.
+Proof.
+  (* written so that it survives equivalent rewrites of the comparison (`len >= limit`, `!(len < limit)`, early return) *)
+  intros b n. unfold gen_check_buffer_boundaries.
+  repeat match goal with
+         | |- context [?x <=? ?y] => destruct (N.leb_spec x y)
+         | |- context [?x <? ?y] => destruct (N.ltb_spec x y)
+         end; cbn [negb]; try reflexivity; lia.
+Qed.
 
 (* ---- 2. MessageHeader::decode *)
 Definition hdr_type (b:bytes) : N := match b with a0 :: a1 :: _ => N.land (rd16 a0 a1) 16383 | _ => 0 end.
